@@ -3,7 +3,9 @@ R1: LambdaExtension.tla (heartbeat: Flush, then loop WaitForFlush -> GET /next; 
     capacity-1 notification channel; consolidator hand-over; forwarder attempts / back-off / give-up, then notify) composed with the
     LambdaProp monitor; three deviations must be refuted (look-alike record types flush too, notify after the first answered attempt,
     no initial flush).  R2: LambdaSched.tla invocation histories.  S2: harness c20 -- the real pkg/lambda extension around a real
-    forwarder-mode statsd.Server on loopback sockets, with a fake runtime API and a fake upstream (real time).  R3: LambdaTrace.tla."""
+    forwarder-mode statsd.Server on loopback sockets, with a fake runtime API and a fake upstream (real time).  R3: LambdaTrace.tla.
+Start-up failures no server configuration produces (plain error, context errors in the chain, early return) come from a stand-in server
+    behind the real manager (hook verifhooks.NewLambdaManager)."""
 import json
 import os
 import vlib
